@@ -23,7 +23,7 @@ PATS = ['a', 'b', '*', '*', 'p:*', 'node()', 'text()', '@*', '@i', 'a|b', '*[@i]
         '@*|node()', 'a|*', 'p:a|p:*', 'b|node()', '*[*]', 'a[@j]|b', '@i|@*', '*/*', 'a//b', 'c', 'd', 'text()[1]', 'node()|@*', 'processing-instruction()',
         "processing-instruction('pi')", 'comment()', '*[not(*)]', 'q:*|a']
 PRIOS = [None, None, None, '-1', '-0.5', '-0.25', '0', '0.5', '1', '0.25', '2']
-MODES = [None, None, 'm1', 'm2']
+MODES = [None, None, 'm1', 'm2', 'p:m1', 'q:m1']   # a mode is a QName: p:m1, q:m1 and m1 are three different modes
 FLAGS = set()
 _loaded = []
 
